@@ -7,12 +7,13 @@ from common import Work
 
 FUEL = 400
 
-def gen_programs(run, n, max_stmts, max_depth, gate_subword, fnlits=True):
+def gen_programs(run, n, max_stmts, max_depth, gate_subword, fnlits=True, closures=False):
     progs = []
     feats = {}
     for i in range(n):
         g = core.Gen(run.rng, max_stmts=max_stmts, max_depth=max_depth)
         g.fnlits = fnlits
+        g.closures = closures
         p = g.program()
         progs.append(p)
         for k, v in g.features.items():
@@ -174,7 +175,7 @@ def main(run):
     import isel
     run.extra["isel_tables"] = isel.gen_tables()
     ok = run.proof("Props/C01.v", extra_targets=["Core/Typing.vo"])
-    progs, feats = gen_programs(run, n, 30 if quick else 60, 3 if quick else 5, False)
+    progs, feats = gen_programs(run, n, 30 if quick else 60, 3 if quick else 5, False, closures=True)
     for _ in range(2 if quick else 20):      # long functions: > 100 basic blocks, register pressure, spills across loops
         g = core.Gen(run.rng, max_stmts=140, max_depth=2)
         g.long_main = True
